@@ -117,7 +117,7 @@ FLAGS = ["-typecheck", "-source-comments", "-skip-interfaces"]
 
 def check(ctx, build=None):
     if build is None:
-        build = C.ensure_built("C05", ["translator"], need_harness=False, extra_go=gomod.EXTRA_GO)
+        build = C.ensure_built("C05", ["printer"], need_harness=False, extra_go=gomod.EXTRA_GO)
     if not build.driver_ok:
         raise C.Infra("the Lean driver does not build")
     scratch = C.scratch()
